@@ -344,6 +344,11 @@ def in_shim(item, container):
         return bool(core.Or([item == b for b in container])) if len(container) else False
     if isinstance(container, (bytes, bytearray)) and isinstance(item, SymBytes):
         raise Unsupported("symbolic bytes in concrete bytes")
+    if type(container) in (set, frozenset, dict) and isinstance(item, (core.SymInt, SymStr)):
+        # a hash lookup would have to enumerate the item's values: membership is the disjunction of equalities instead
+        same = (builtins.int,) if isinstance(item, core.SymInt) else (str,)
+        terms = [item == k for k in container if isinstance(k, same) and not isinstance(k, builtins.bool)]
+        return bool(core.Or(terms)) if terms else False
     return item in container
 
 
@@ -356,6 +361,9 @@ def method_shim(recv, name, *args):
         recv = SymBytes(list(recv), type(recv))
     if name == "join" and isinstance(recv, (str, bytes, bytearray)) and len(args) == 1:
         return join_shim(recv, args[0])
+    if name == "get" and type(recv) is dict and 1 <= len(args) <= 2 and type(args[0]) is core.SymInt:
+        from . import shims
+        return shims.dict_get(recv, *args)
     return getattr(recv, name)(*args)
 
 
